@@ -382,6 +382,8 @@ impl Prioritize {
         let _res = self.flow.assign_capacity(inc);
         debug_assert!(_res.is_ok());
 
+        let current = store.current_key();
+
         // Assign newly acquired capacity to streams pending capacity.
         while self.flow.available() > 0 {
             let stream = match self.pending_capacity.pop(store) {
@@ -391,9 +393,15 @@ impl Prioritize {
 
             // Streams pending capacity may have been reset before capacity
             // became available. In that case, the stream won't want any
-            // capacity, and so we shouldn't "transition" on it, but just evict
-            // it and continue the loop.
+            // capacity, and so we shouldn't assign any to it, but just evict
+            // it and continue the loop. This queue may have been the last
+            // thing keeping the stream's entry alive, so give it the chance
+            // to be released - unless it is the very stream the caller is
+            // working on, which the caller transitions itself.
             if !(stream.state.is_send_streaming() || stream.buffered_send_data > 0) {
+                if current != Some(stream.key()) {
+                    counts.transition(stream, |_, _| {});
+                }
                 continue;
             }
 
